@@ -1285,3 +1285,101 @@ def _is_element_of_children(h: Func, e: ast.AST) -> bool:
                     if not txt.endswith("state.tokens") and txt != "state.tokens":
                         return True
     return False
+
+
+# ------------------------------------------------------------------------------------------------ MOVE
+def rule_move(c: Ctx) -> RuleResult:
+    """Reordering of the token stream: two stream positions are exchanged only across tokens of the moving rule's own pair.
+
+    A rule that moves a token forward in the stream (the lone strikethrough marker that has to end up behind the closing tags
+    of its own run) walks over the tokens it may cross with a loop.  Crossing a token of another construct (a `link_close`, an
+    `em_close`) un-nests that construct.  Necessary condition, checked at every exchange of two elements of a token list in the
+    parse phase: the loop that advances the target index continues only while the crossed token's `type` equals a `*_close`
+    literal whose `*_open` counterpart is pushed in the same module."""
+    r = RuleResult("MOVE", "two positions of a token stream are exchanged only across closing tokens of the moving rule's own pair (the index "
+                           "that determines how far a token is moved advances under a test of `type` against that literal)")
+    n_sw = 0
+    for f in sorted(c.cg.parse_phase(), key=lambda x: x.qual):
+        sc = c.tf.scope(f)
+
+        def tok_list(e: ast.AST) -> bool:
+            t = sc.type(e)
+            return isinstance(t, tuple) and len(t) > 1 and t[0] == "list" and t[1] == "Token"
+        swaps: list[tuple[ast.AST, ast.Subscript, ast.Subscript]] = []
+        body_stmts = [n for n in own_nodes(f.node) if isinstance(n, ast.Assign)]
+        for n in body_stmts:
+            # a, b = b, a
+            if len(n.targets) == 1 and isinstance(n.targets[0], ast.Tuple) and isinstance(n.value, ast.Tuple) and len(n.targets[0].elts) == 2 \
+                    and len(n.value.elts) == 2:
+                a, b = n.targets[0].elts
+                x, y = n.value.elts
+                if isinstance(a, ast.Subscript) and isinstance(b, ast.Subscript) and U(a) == U(y) and U(b) == U(x) and tok_list(a.value) and U(a.value) == U(b.value):
+                    swaps.append((n, a, b))
+        # tmp = L[j]; L[j] = L[i]; L[i] = tmp
+        for blk in _blocks(f.node):
+            for s1, s2, s3 in zip(blk, blk[1:], blk[2:]):
+                if all(isinstance(s_, ast.Assign) and len(s_.targets) == 1 for s_ in (s1, s2, s3)) and isinstance(s1.targets[0], ast.Name) \
+                        and isinstance(s1.value, ast.Subscript) and isinstance(s2.targets[0], ast.Subscript) and isinstance(s2.value, ast.Subscript) \
+                        and isinstance(s3.targets[0], ast.Subscript) and isinstance(s3.value, ast.Name) and s3.value.id == s1.targets[0].id \
+                        and U(s2.targets[0]) == U(s1.value) and U(s3.targets[0]) == U(s2.value) and tok_list(s1.value.value):
+                    swaps.append((s2, s2.targets[0], s3.targets[0]))
+        if not swaps:
+            continue
+        r.functions += 1
+        # literal types written in this module (push sites and retagging stores `token.type = "s_open"`)
+        lits_mod = {x.value for x in ast.walk(f.module.tree) if isinstance(x, ast.Constant) and isinstance(x.value, str) and x.value.endswith(("_open", "_close"))}
+        for (stmt, a, b) in swaps:
+            n_sw += 1
+            key = f"{f.short}|swap|{alpha(f, stmt)[:60]}"
+            idx_names = {x.id for e in (a.slice, b.slice) for x in ast.walk(e) if isinstance(x, ast.Name)}
+            # the loops that advance one of the indices before the exchange
+            verdicts = []
+            # candidate loops: preceding siblings of the exchange (or of one of its ancestors), innermost first, up to the loop
+            # that re-initialises the indices
+            cands: list[ast.While] = []
+            node: ast.AST = stmt
+            parents = f.module.parents
+            while node is not f.node and node in parents:
+                par = parents[node]
+                for fld in ("body", "orelse", "finalbody"):
+                    blk_ = getattr(par, fld, None)
+                    if isinstance(blk_, list) and any(x is node for x in blk_):
+                        k_ = next(i_ for i_, x in enumerate(blk_) if x is node)
+                        cands += [x for x in blk_[:k_] if isinstance(x, ast.While)]
+                if isinstance(par, (ast.While, ast.For)) and any(
+                        isinstance(x, ast.Assign) and any(isinstance(t, ast.Name) and t.id in idx_names for t in x.targets) for x in par.body):
+                    break          # the indices are (re)bound inside this loop: earlier loops do not matter
+                node = par
+            for L in cands:
+                adv = {t.id for x in ast.walk(L) if isinstance(x, (ast.AugAssign, ast.Assign)) for t in ([x.target] if isinstance(x, ast.AugAssign) else x.targets)
+                       if isinstance(t, ast.Name)} & idx_names
+                if not adv or any(x is stmt for x in ast.walk(L)):
+                    continue
+                if not (L.lineno < stmt.lineno):
+                    continue
+                # the test must contain `<list>[idx..].type == "<x>_close"` with x_open known in the module; no other test on the crossed token
+                ok = False
+                other = []
+                for cmp_ in [x for x in ast.walk(L.test) if isinstance(x, ast.Compare)]:
+                    if len(cmp_.ops) == 1 and isinstance(cmp_.ops[0], ast.Eq):
+                        for l_, r_ in ((cmp_.left, cmp_.comparators[0]), (cmp_.comparators[0], cmp_.left)):
+                            if isinstance(l_, ast.Attribute) and l_.attr == "type" and isinstance(r_, ast.Constant) and isinstance(r_.value, str) \
+                                    and r_.value.endswith("_close") and r_.value[:-6] + "_open" in lits_mod:
+                                ok = True
+                for x in ast.walk(L.test):
+                    if isinstance(x, ast.Attribute) and x.attr in ("nesting", "level", "tag", "markup", "content") and isinstance(x.value, ast.Subscript):
+                        other.append(x.attr)
+                verdicts.append((L, ok and not other, other))
+            if not verdicts:
+                r.add(key, c.where(f, stmt), f.short, U(stmt)[:70], "exempt", "no preceding loop determines the distance of the exchange (adjacent or fixed positions)")
+                continue
+            bad = [v for v in verdicts if not v[1]]
+            r.add(key, c.where(f, stmt), f.short, U(stmt)[:70], "violation" if bad else "discharged",
+                  (f"the loop at line {bad[0][0].lineno} that decides how far the token is moved does not stop at tokens of other constructs "
+                   f"(it tests {sorted(set(bad[0][2])) or 'no `type` literal of this module'}): the token can be moved across a closing tag of another "
+                   f"pair (link_close, em_close), which un-nests the stream") if bad else
+                  "the target index advances only over closing tokens of this module's own pair")
+    if n_sw < 1:
+        raise AnchorError("no exchange of two token-stream positions found (the lone strikethrough marker is expected)")
+    r.floor = 1
+    return r
